@@ -21,25 +21,29 @@ import pfimport  # noqa: F401
 from pfimport import exc_enum
 from pipefunc import PipeFunc, Pipeline
 
+import c09_ext
+import c09_race
 import framework
 import mapgen
 import pipegen
 import terms
 
 PID = "C09"
-PROPS = ["PfModel.Props.C09"]
+PROPS = ["PfModel.Props.C09", "PfModel.Props.C09Outcome", "PfModel.Props.C09Fail", "PfModel.Props.C09Policies"]
 DRIVER = "C09"
 RULE = ("random DAGs of 1-4 term-building functions (tuple outputs, shared roots, defaults, bound values, renames) x EVERY subset of "
         "cached functions x {simple, lru, hybrid, disk} x histories of 2-6 steps: calls (random output, random listed argument "
         "combination incl. supplied intermediates, values from a 2-value domain, defaulted roots left out, full_output, repeats of "
-        "earlier calls) and mutations (update_defaults, update_bound, replace); an exhaustive family on a 2-function chain; map runs "
+        "earlier calls, calls that FAIL in the middle of the evaluation after some frames have stored their results) and mutations "
+        "(update_defaults, update_bound, replace); an exhaustive family on a 2-function chain and one on a chain whose second "
+        "function lacks an argument (failing calls); LRUCache(max_size=1..2) histories are modelled with eviction; map runs "
         "with repeated input values (sequential twice, thread pool with a shared cache).  A history is non-trivial when the model "
         "reports at least one cache hit; distinct by (pipeline, cached set, history)")
-ASSUMPTIONS = ["the cache containers are black boxes that keep what was put while below their size limit (C14); with a small "
-               "max_size only the returned values are compared, not the call log",
+ASSUMPTIONS = ["the cache containers are black boxes that keep what was put while below their size limit (C14); LRUCache(max_size=n) is "
+               "modelled by the recency-list policy PF.PipeCache.lruPolicy n (= C14's Recency, which C14 proves the LRUCache refines)",
                "to_hashable is injective on the generated values (C15); the model uses a printer of the term as the hashable",
                "root_args is compared with the model's reachable-root set on every case (flag roots_ok), not proved equal",
-               "a call that fails in the middle of the evaluation ends the modelled history",
+               "user functions never raise (C13's business); a call fails in the middle of the evaluation only for a missing argument or an unknown output",
                "PipeFunc.update_defaults applied to a single function of a pipeline (which can make shared defaults inconsistent) is not generated"]
 
 CACHE_KINDS = ["simple", "lru", "hybrid", "disk"]
@@ -245,7 +249,7 @@ def gen_desc(rng):
     return pipegen.gen_dag(rng, max_funcs=rng.choice([1, 2, 2, 3, 3, 4, 4]), roots=rng.choice([1, 2, 2, 3]), p_bound=0.25, p_default=0.3)
 
 
-def gen_history(rng, desc, cached, cfg, base, length, p_mut):
+def gen_history(rng, desc, cached, cfg, base, length, p_mut, p_fail=0.0):
     """Generate a history online (valid calls need the twin's current arg_combinations); returns the recorded case."""
     case = {"funcs": copy.deepcopy(desc["funcs"]), "cached": list(cached), "cache": cfg, "history": []}
     try:
@@ -267,8 +271,17 @@ def gen_history(rng, desc, cached, cfg, base, length, p_mut):
             c = gen_call(rng, pu, funcs, earlier)
             if c is None:
                 continue
+            if p_fail and c["kw"] and rng.random() < p_fail:
+                # a call that fails in the middle of the evaluation (a root argument is missing): the frames that complete before the
+                # failure store their results; the history goes on from the cache the failure leaves (PF.PipeCache.histF)
+                c = copy.deepcopy(c)
+                c["kw"].pop(rng.randrange(len(c["kw"])))
+                if observe(pu, lu, c).get("err") in ("ValueError", "KeyError"):
+                    case["history"].append({"call": c})
+                    case["has_failing"] = True
+                continue
             if observe(pu, lu, c).get("err") not in (None, "UnusedParametersError"):
-                continue                    # a call that fails in the middle of the evaluation ends the modelled history: malformed stream only
+                continue
             earlier.append(c)
             case["history"].append({"call": c})
     return case if any("call" in s for s in case["history"]) else None
@@ -289,6 +302,24 @@ def chain_cases(max_len):
         for n in range(2, max_len + 1):
             for hist in itertools.product(calls, repeat=n):
                 yield {"funcs": funcs, "cached": cached, "cache": {"type": "simple"}, "history": [{"call": c} for c in hist]}
+
+
+def fail_chain_cases(max_len):
+    """Exhaustive family with failing calls: g(a)→c, k(c,z)→e; `e(a=..)` runs (and stores) g, then raises for the missing z."""
+    funcs = [{"name": "g", "params": [["a", "a"]], "outputs": ["c"], "defaults": [], "bound": []},
+             {"name": "k", "params": [["c", "c"], ["z", "z"]], "outputs": ["e"], "defaults": [], "bound": []}]
+    calls = []
+    for full in (False, True):
+        for a in (0, 1):
+            calls.append({"out": "c", "kw": [["a", val("a", a)]], "full": full})
+            calls.append({"out": "e", "kw": [["a", val("a", a)]], "full": full})                               # fails after g
+            calls.append({"out": "e", "kw": [["a", val("a", a)], ["z", val("z", 0)]], "full": full})
+        calls.append({"out": "e", "kw": [["z", val("z", 0)]], "full": full})                                   # fails at once
+    for cached in (["g"], ["k"], ["g", "k"]):
+        for cfg in ({"type": "simple"}, {"type": "lru", "kwargs": {"shared": False, "max_size": 1}}):
+            for n in range(2, max_len + 1):
+                for hist in itertools.product(calls, repeat=n):
+                    yield {"funcs": funcs, "cached": cached, "cache": cfg, "history": [{"call": c} for c in hist], "has_failing": True}
 
 
 # ---------------------------------------------------------------------------------------------- known findings
@@ -422,6 +453,9 @@ def shrink(case, base, budget=60):
 
 def model_request(case, legacy=False):
     a = {"funcs": case["funcs"], "cached": case["cached"], "history": case["history"]}
+    cfg = case.get("cache") or {}
+    if cfg.get("type") == "lru":
+        a["lru_max"] = int((cfg.get("kwargs") or {}).get("max_size") or 128)      # LRUCache(max_size=128) by default
     if legacy:
         a["legacy"] = True
     return {"m": "pipe.cached", "a": a}
@@ -439,9 +473,10 @@ def judge_history(ctx, case, impl, resp, pending):
     r = resp["r"]
     msteps = [canon_model_step(s) for s in r["steps"]]
     mtwin = [canon_model_step(s) for s in r["twin"]]
-    if not r["stable"] or not r["roots_ok"]:
-        ctx.violation(case, "hypothesis of the C09 theorems does not hold of a generated pipeline (acyclic/fuel or root_args = reachable roots)",
-                      found_input=False, item="correspondence:wf", model={"stable": r["stable"], "roots_ok": r["roots_ok"]})
+    if not r["stable"] or not r["roots_ok"] or not r.get("prefix_ok", True) or not r.get("histf_ok", True):
+        ctx.violation(case, "hypothesis of the C09 theorems does not hold of a generated pipeline (acyclic/fuel, unique names, root_args = reachable roots) "
+                            "or histC is not a prefix of histF",
+                      found_input=False, item="correspondence:wf", model={"stable": r["stable"], "roots_ok": r["roots_ok"], "prefix_ok": r.get("prefix_ok"), "histf_ok": r.get("histf_ok")})
     nhits = sum(len(s["hits"]) for s in msteps if s and "hits" in s)
     has_mut = any("call" not in s for s in case["history"])
     ctx.count("history:with-mutation" if has_mut else "history:calls-only")
@@ -451,10 +486,15 @@ def judge_history(ctx, case, impl, resp, pending):
     if ff is not None:
         pending.append(case)
         return
-    if small:
+    if small and case["cache"]["type"] != "lru":
         ctx.count("history:small-cache-compared-with-twin-only")
-        return                      # eviction is not modelled: only the property's own oracle (the twin) applies
+        return                      # eviction is modelled for the LRUCache only
+    if small:
+        ctx.count("history:small-lru-modelled-with-eviction")
+    if case.get("has_failing"):
+        ctx.count("history:with-failing-call")
     exact = True
+    resident_forever = not small     # the direct second-clause check below presumes that nothing is evicted
     seen_exec = []           # (kw, function name) executed with a complete key, for the direct second clause
     root_cache = {}
     for i, step in enumerate(case["history"]):
@@ -485,7 +525,7 @@ def judge_history(ctx, case, impl, resp, pending):
             return
         # second clause, directly on the implementation: a function executed under a complete key is not executed again
         kwkey = tuple(sorted((k, repr(v)) for k, v in call["kw"]))
-        if exact and "err" not in c:
+        if exact and resident_forever and "err" not in c:
             for (kk, fname) in seen_exec:
                 if kk == kwkey and fname in c["calls"]:
                     ctx.violation(case, f"cached function {fname} is executed again at step {i} for equal arguments although its entry is resident",
@@ -503,8 +543,7 @@ def judge_history(ctx, case, impl, resp, pending):
                 ctx.violation(case, f"error class at step {i} differs from the model", found_input=False, item="correspondence:error-class", impl=c, model=mc)
                 return
             if "value" not in mc:
-                ctx.count("history-ended-by-error")
-                return
+                ctx.count("step:call-failed-mid-run")       # the model goes on from the cache the failure left (histF)
             continue
         if "err" in mc:
             ctx.violation(case, f"model rejects the cached call at step {i} that the implementation accepts", found_input=False,
@@ -519,7 +558,8 @@ def judge_history(ctx, case, impl, resp, pending):
             ctx.violation(case, what, found_input=False, item="correspondence:call-log", impl=c, model=mc)
             return
         if mc["hits"]:
-            ctx.count("model:hit" + (":full" if call["full"] else ""))
+            ctx.count("model:hit" + (":full" if call["full"] else "") + (":after-failed-call" if any(
+                "err" in (impl["steps"][j].get("c") or {}) and impl["steps"][j]["c"]["err"] != "UnusedParametersError" for j in range(i) if "c" in impl["steps"][j]) else ""))
         if mc["puts"]:
             ctx.count("model:put")
         if not mc["hits"] and not mc["puts"] and mc["calls"] and any(n in case["cached"] for n in mc["calls"]):
@@ -720,6 +760,16 @@ CORPUS: list = [
     # DF-18 (c): replace between the put and the hit (known finding)
     _c([_G, _F], ["f", "g"], [_call("d", [("a", "1")]), {"replace": {"name": "g2", "params": [["a", "a"]], "outputs": ["c"], "defaults": [], "bound": []}},
                               _call("d", [("a", "1")])]),
+    # a call that fails after g has stored its result; the next calls find / reuse what the failure left (round 2, histF)
+    _c([_G, {"name": "k", "params": [["c", "c"], ["z", "z"]], "outputs": ["e"], "defaults": [], "bound": []}], ["g", "k"],
+       [_call("e", [("a", "1")]), _call("c", [("a", "1")]), _call("e", [("a", "1"), ("z", "Z")], True), _call("e", [("a", "1")])]),
+    # LRUCache(max_size=1): the entry of a=1 is evicted by a=2 and recomputed; then hit
+    _c([_G, _F], ["f"], [_call("d", [("a", "1")]), _call("d", [("a", "2")]), _call("d", [("a", "1")]), _call("d", [("a", "1")])],
+       {"type": "lru", "kwargs": {"shared": False, "max_size": 1}}),
+    # a surplus keyword: UnusedParametersError without a hit and under full_output with hits; skipped after an early return from a hit
+    _c([_G, _F], ["f", "g"], [_call("d", [("a", "1"), ("zz", "0")]), _call("d", [("a", "1"), ("zz", "0")], True), _call("d", [("a", "1"), ("zz", "0")])]),
+    # KF-C09-update-bound where the stale entry was stored by a call that then FAILED (found by the thorough tier, round 2)
+    dict({"funcs": [{"name": "f0", "params": [["r1", "a0"]], "outputs": ["o0a", "o0b"], "defaults": [], "bound": [["r1", {"s": "bound:r1:f0"}]]}, {"name": "f1", "params": [["o0a", "o0a"], ["o0b", "o0b"], ["r1", "a2"]], "outputs": ["o1"], "defaults": [], "bound": []}, {"name": "f2", "params": [["o1", "a0"], ["o0b", "o0b"]], "outputs": ["o2a", "o2b"], "defaults": [], "bound": [["o0b", {"s": "bound:o0b:f2"}]]}], "cached": ["f0", "f2", "f0r1"], "cache": {"type": "simple"}, "history": [{"replace": {"name": "f0r1", "params": [["r1", "a0"]], "outputs": ["o0a", "o0b"], "defaults": [], "bound": [["r1", {"s": "bound:r1:f0"}]]}}, {"call": {"out": "o2a", "kw": [], "full": False}}, {"update_bound": {"f": "f0r1", "o": ["o0a", "o0b"], "b": [["r1", {"s": "bound2:r1:1"}]]}}, {"call": {"out": "o0a", "kw": [], "full": False}}]}, has_failing=True),
     # update_defaults changes the key of later calls, so nothing stale is served
     _c([{"name": "g", "params": [["a", "a"]], "outputs": ["c"], "defaults": [["a", {"s": "A0"}]], "bound": []}, _F], ["f", "g"],
        [_call("d", []), {"update_defaults": [["a", {"s": "A1"}]]}, _call("d", []), _call("d", [("a", "A0")])]),
@@ -735,11 +785,16 @@ def run(ctx):
         # exhaustive family on the chain
         chain = list(chain_cases(2 if ctx.tier == "quick" else 3))
         if ctx.tier == "quick":
-            chain = rng.sample(chain, min(len(chain), 350))
+            chain = rng.sample(chain, min(len(chain), 300))
         cases += chain
         ctx.count("stream:chain-exhaustive", len(chain))
+        fchain = list(fail_chain_cases(2 if ctx.tier == "quick" else 3))
+        if ctx.tier == "quick":
+            fchain = rng.sample(fchain, min(len(fchain), 160))
+        cases += fchain
+        ctx.count("stream:fail-chain-exhaustive", len(fchain))
         # random DAGs x every cached subset x cache kinds x histories
-        n_dags = ctx.n(190, 5000)
+        n_dags = ctx.n(150, 5000)
         for d in range(n_dags):
             desc = gen_desc(rng)
             names = [f["name"] for f in desc["funcs"]]
@@ -758,7 +813,8 @@ def run(ctx):
                     cfg = {"type": "disk"}
                 for _ in range(2 if len(names) <= 2 else 1):
                     p_mut = rng.choice([0.0, 0.0, 0.25])
-                    case = gen_history(rng, desc, sub, cfg, base, rng.randint(2, 6), p_mut)
+                    p_fail = rng.choice([0.0, 0.0, 0.2])
+                    case = gen_history(rng, desc, sub, cfg, base, rng.randint(2, 6), p_mut, p_fail)
                     if case is None:
                         ctx.skip("history-not-generated")
                         continue
@@ -799,6 +855,8 @@ def run(ctx):
                     found_near.append(found)
         report_failures(ctx, found_near, base)
         run_maps(ctx, rng, base)
+        run_race(ctx, base)
+        c09_ext.run_ext(ctx, base)
     finally:
         shutil.rmtree(base, ignore_errors=True)
 
@@ -858,9 +916,40 @@ def run_maps(ctx, rng, base):
         judge_map(ctx, c, elems, impl, m["r"], e["r"])
 
 
+RACE_CORPUS = [
+    # DF-C09-disk-put-race: the second element looks its key up while the first is inside DiskCache.put
+    {"kind": "race", "cache_type": "disk", "cache_kwargs": {}, "x": [1, 1]},
+    {"kind": "race", "cache_type": "disk", "cache_kwargs": {"with_lru_cache": False}, "x": [1, 1]},
+    {"kind": "race", "cache_type": "disk", "cache_kwargs": {"use_cloudpickle": False}, "x": [2, 2]},
+    {"kind": "race", "cache_type": "disk", "cache_kwargs": {"max_size": 1}, "x": [1, 1]},
+]   # two elements only: with three, the two late elements race with each other (not a deterministic schedule)
+
+
+def run_race(ctx, base):
+    """Shared-cache parallel map runs under a deterministic schedule (harness/c09_race.py): a later element looks its key up
+    while the first element is in the middle of `cache.put`.  Only containers that pickle inside `put` can be staged this way."""
+    for case in RACE_CORPUS:
+        ob = c09_race.run_case(case, base)
+        ctx.count("race:" + case["cache_type"] + ":" + ",".join(sorted(case["cache_kwargs"])) )
+        u, c = ob["u"], ob["c"]
+        ctx.record(case, nontrivial="err" not in u)
+        if "err" in u:
+            ctx.count(f"race-twin-err:{u['err']}")
+            continue
+        if "err" in c:
+            ctx.violation(case, f"map with a shared {case['cache_type']} cache raises {c['err']} while an element is being stored; the uncached run succeeds",
+                          impl=ob)
+        elif c["y"] != u["y"]:
+            ctx.violation(case, f"map with a shared {case['cache_type']} cache returns other values than without while an element is being stored", impl=ob)
+
+
 def replay(ctx, case):
     base = tempfile.mkdtemp(prefix="verif-c09-")
     try:
+        if case.get("kind") == "race":
+            print("implementation:", c09_race.run_case(case, base))
+            return
+        if str(case.get("kind", "")).startswith("ext:"): c09_ext.replay_ext(ctx, case); return
         if case.get("kind") == "map":
             print("implementation:", run_map_case(case["desc"], case["cache"], case["mode"], base))
             return
